@@ -262,6 +262,22 @@ func c35RequestStream(r *vu.Rng) []byte {
 	return b
 }
 
+// c35ValidRequestHeaders is a HEADERS frame carrying a complete valid request field section.
+func c35ValidRequestHeaders() []byte {
+	var enc qpackEncoder
+	enc.init()
+	sec := enc.encode(func(f func(itype indexType, name, value string)) {
+		f(mayIndex, ":method", "GET")
+		f(mayIndex, ":scheme", "https")
+		f(mayIndex, ":authority", "example.com")
+		f(mayIndex, ":path", "/")
+		f(mayIndex, "accept", "*/*")
+	})
+	b := c35Varint(1)
+	b = append(b, c35Varint(uint64(len(sec)))...)
+	return append(b, sec...)
+}
+
 func c35Gen(r *vu.Rng, i int) []string {
 	switch k := r.Intn(100); {
 	case k < 15: // free-form primitive sequence
@@ -356,6 +372,21 @@ func c35Gen(r *vu.Rng, i int) []string {
 			data = c35Mutate(r, data)
 		}
 		return []string{"uni " + vu.Hex(data)}
+	case k < 86: // the frame loop of the real serverConn.parseHeader: frames before a valid HEADERS frame
+		var data []byte
+		for n := r.Intn(4); n > 0; n-- {
+			ft := []uint64{0x21, 0x40, 0x2, 0x6, 1 << 20, 0x21 + 0x1f*7}[r.Intn(6)]
+			if r.Chance(1, 8) {
+				ft = c35FrameTypes[r.Intn(len(c35FrameTypes))]
+			}
+			if ft == 1 {
+				ft = 0x21
+			}
+			data = append(data, c35Frame(r, ft)...)
+		}
+		data = append(data, c35ValidRequestHeaders()...)
+		data = append(data, c35Frames(r, r.Intn(2))...)
+		return []string{"phdr " + vu.Hex(data)}
 	default: // request stream through genericConn + the harness request handler
 		data := c35RequestStream(r)
 		if r.Chance(1, 3) {
@@ -410,6 +441,9 @@ func (x *c35Exec) exec(ops []string, o *vu.Out) {
 			continue
 		case t[0] == "uni" && len(t) == 2:
 			o.Op(op, x.uni(vu.MustHex(t[1]), o))
+			continue
+		case t[0] == "phdr" && len(t) == 2:
+			o.Op(op, x.phdr(vu.MustHex(t[1]), o))
 			continue
 		case t[0] == "req" && len(t) == 3:
 			k := vu.Atoi(t[1])
@@ -610,11 +644,63 @@ func (x *c35Exec) req(k int, data []byte, o *vu.Out) string {
 		o.Fail(sig, fmt.Sprintf("handleRequestStream panicked (nil *quic.Stream after a frame-limit overrun inside QPACK decoding; handleStreamError calls st.stream.CloseRead()) on request stream bytes %x", data))
 		res = "ok panic"
 	}
+	if !reachedBody && res == fmt.Sprintf("ok reset:%d", int(errH3InternalError)) {
+		// Known finding (literal reading of "reports ... as an H3_FRAME_ERROR-class failure"): a frame error in
+		// the leading HEADERS frame reaches handleStreamError as a bare http3Error and is sent as H3_INTERNAL_ERROR.
+		tag := c35ErrTag(h.herr)
+		fr := c35RefParse(data)
+		headersCut := len(fr) > 0 && fr[0].hdrOK && fr[0].ftype == 1 && fr[0].truncated
+		if tag == fmt.Sprintf("h3:%d", int(errH3FrameError)) || (headersCut && tag == fmt.Sprintf("h3:%d", int(errQPACKDecompressionFailed))) {
+			o.Fail("frame-error-reset-as-internal-error", fmt.Sprintf("truncated/over-read leading HEADERS frame (handler error %s) is signalled with RESET_STREAM H3_INTERNAL_ERROR, not H3_FRAME_ERROR: %x", tag, data))
+		}
+	}
 	out := fmt.Sprintf("%s herr=%s body=%s", res, c35ErrTag(h.herr), vu.Hex(bodyBytes))
 	if res != "ok panic" {
 		x.oracleReq(data, bodyBytes, h.herr, reachedBody, o)
 	}
 	return out
+}
+
+// phdr runs the unmodified serverConn.parseHeader on the bytes. Oracle: complete frames of unknown
+// type in front of a valid HEADERS frame are skipped ("skips unknown frame types").
+func (x *c35Exec) phdr(data []byte, o *vu.Out) string {
+	st, cleanup := x.rig.open(data)
+	defer cleanup()
+	var sc serverConn
+	var err error
+	res := vu.Catch(func() string {
+		_, _, err = sc.parseHeader(st)
+		if err != nil {
+			return "err " + c35ErrTag(err)
+		}
+		return "ok"
+	})
+	if res == "panic" {
+		o.Fail("", fmt.Sprintf("serverConn.parseHeader panicked on %x", data))
+		return res
+	}
+	// reference: are all frames before the first HEADERS frame complete and of unknown type?
+	clean := true
+	sawHeaders := false
+	for _, f := range c35RefParse(data) {
+		if f.hdrOK && f.ftype == 1 && !f.truncated {
+			// only the generator's valid request section counts (length mutations of the frames in
+			// front can make the parse land on a different, invalid HEADERS frame)
+			sawHeaders = bytes.Equal(f.payload, c35ValidRequestHeaders()[2:])
+			break
+		}
+		if !f.hdrOK || f.truncated || c35Known(f.ftype) {
+			clean = false
+			break
+		}
+	}
+	if clean && sawHeaders {
+		o.Stat("phdr:oracle-clean")
+		if err != nil {
+			o.Fail("", fmt.Sprintf("request stream with only complete unknown frames before a valid HEADERS frame rejected with %s (unknown frame types must be skipped): %x", c35ErrTag(err), data))
+		}
+	}
+	return res
 }
 
 // realServerPanics runs the unmodified serverConn.handleRequestStream (no handler is reached:
@@ -702,6 +788,12 @@ func (x *c35Exec) oracleReq(data, body []byte, herr error, reachedBody bool, o *
 	cleanPrefix := true // every frame so far complete and DATA/unknown
 	for _, f := range frames[1:] {
 		if !f.hdrOK {
+			// the stream ends inside a frame header: the last frame is truncated
+			if cleanPrefix && herr == nil {
+				o.Fail("", fmt.Sprintf("stream ends inside a frame header but the body ended cleanly (want H3_FRAME_ERROR): %x", data))
+			} else if cleanPrefix && c35ErrCode(herr) != int(errH3FrameError) {
+				o.Fail("", fmt.Sprintf("stream ends inside a frame header, reported as %s, want H3_FRAME_ERROR: %x", c35ErrTag(herr), data))
+			}
 			break
 		}
 		if f.ftype == 0 {
@@ -771,13 +863,21 @@ func (x *c35Exec) oracleUni(data []byte, res string, o *vu.Out) {
 		}
 		p = p[n1+n2:]
 	}
+	wantFrameErr := fmt.Sprintf("ok abort:%d", int(errH3FrameError))
 	for _, f := range frames[1:] {
-		if !f.hdrOK || c35Known(f.ftype) {
+		if !f.hdrOK {
+			// the control stream ends inside a frame header
+			if res != wantFrameErr {
+				o.Fail("", fmt.Sprintf("control stream ends inside a frame header: result %q, want connection error H3_FRAME_ERROR: %x", res, data))
+			}
+			return
+		}
+		if c35Known(f.ftype) {
 			return
 		}
 		if f.truncated {
-			if !strings.Contains(res, fmt.Sprint(int(errH3FrameError))) {
-				o.Fail("", fmt.Sprintf("control stream: unknown frame cut short reported as %q, want H3_FRAME_ERROR: %x", res, data))
+			if res != wantFrameErr {
+				o.Fail("", fmt.Sprintf("control stream: unknown frame cut short: result %q, want connection error H3_FRAME_ERROR (a reset of the receive-only stream tells the peer nothing): %x", res, data))
 			}
 			return
 		}
